@@ -23,8 +23,12 @@ def r_operand(t):
         return "not " + r_operand(t[1])
     if k == "paren":
         return "(" + r_chain(t[1], None) + ")"
+    if k == "tup":
+        return "(" + ", ".join(r_chain(c, None) for c in t[1]) + ")"
+    if k == "sl":
+        return "[" + "; ".join(r_chain(c, None) for c in t[1]) + "]"
     if k == "appn":
-        return " ".join([t[1]] + [r_operand(x) if x[0] in ("atom", "paren") else "(" + r_operand(x) + ")" for x in t[2]])
+        return " ".join([t[1]] + [r_operand(x) if x[0] in ("atom", "paren", "tup", "sl") else "(" + r_operand(x) + ")" for x in t[2]])
     if k == "lam":
         return "fun %s -> %s" % (t[1], r_chain(t[2], None))
     if k == "ifx":
